@@ -379,3 +379,104 @@ Section move_ok.
     split; [done|]. split; [|done]. unfold tlen. rewrite Hde, app_length. simpl. lia.
   Qed.
 End move_ok.
+
+(** ** What [copy_cells] writes *)
+Lemma find_index_Some_lookup {A} (p : A -> bool) l i : find_index p l = Some i -> exists x, l !! i = Some x /\ p x = true.
+Proof.
+  revert i. induction l as [|x r IH]; intros i H; simpl in *; [done|].
+  destruct (p x) eqn:Hp; [injection H as <-; by exists x|].
+  destruct (find_index p r) as [k|]; [|done]. injection H as <-. by apply IH.
+Qed.
+
+Lemma find_index_nodup (l : list nat) i x : NoDup l -> l !! i = Some x -> find_index (Nat.eqb x) l = Some i.
+Proof.
+  revert i. induction l as [|y r IH]; intros i Hnd Hi; [done|]. apply NoDup_cons in Hnd as [Hy Hnd].
+  simpl. destruct i as [|i]; simpl in Hi.
+  - injection Hi as ->. by rewrite Nat.eqb_refl.
+  - destruct (Nat.eqb_spec x y) as [->|Hne]; [exfalso; apply Hy; by eapply elem_of_list_lookup_2|].
+    by rewrite (IH i Hnd Hi).
+Qed.
+
+Lemma find_index_None_notin (l : list nat) x : find_index (Nat.eqb x) l = None -> x ∉ l.
+Proof.
+  induction l as [|y r IH]; simpl; [intros _ H; by apply elem_of_nil in H|].
+  destruct (Nat.eqb_spec x y); [done|]. destruct (find_index _ r); [done|]. intros _ H.
+  apply elem_of_cons in H as [->|H]; [done|]. by apply IH.
+Qed.
+
+Section copy.
+  Context (keep : N) (srow : list Z) (dids : list nat).
+  Hypothesis Hdnd : NoDup dids.
+
+  Let stepf := (fun (acc : list Z) (p : nat * nat) => let '(i, id) := p in
+           if bit keep id then
+             match srow !! i, find_index (Nat.eqb id) dids with
+             | Some v, Some j => <[j := v]> acc
+             | _, _ => acc
+             end
+           else acc).
+
+  Lemma copy_fold_other l : forall acc j idj, dids !! j = Some idj ->
+    (forall i, (i, idj) ∉ l) -> foldl stepf acc l !! j = acc !! j.
+  Proof.
+    induction l as [|[i id] r IH]; intros acc j idj Hj Hno; simpl; [done|].
+    rewrite (IH _ j idj Hj) by (intros k Hk; apply (Hno k); apply elem_of_cons; by right).
+    destruct (bit keep id); [|done]. destruct (srow !! i); [|done].
+    destruct (find_index (Nat.eqb id) dids) as [j'|] eqn:Hf; [|done].
+    destruct (decide (j' = j)) as [->|Hne]; [|by rewrite list_lookup_insert_ne].
+    apply find_index_Some_lookup in Hf as (x & Hx & Hex). apply Nat.eqb_eq in Hex. subst x.
+    rewrite Hj in Hx. injection Hx as ->. exfalso. apply (Hno i). apply elem_of_cons. by left.
+  Qed.
+
+  Lemma copy_fold_hit l : forall acc j idj i v, dids !! j = Some idj -> j < length acc ->
+    NoDup (map snd l) -> (i, idj) ∈ l -> srow !! i = Some v -> bit keep idj = true ->
+    foldl stepf acc l !! j = Some v.
+  Proof.
+    induction l as [|[i0 id0] r IH]; intros acc j idj i v Hj Hlt Hnd Hin Hv Hk; [by apply elem_of_nil in Hin|].
+    simpl in Hnd. apply NoDup_cons in Hnd as [Hid0 Hnd].
+    apply elem_of_cons in Hin as [[= <- <-]|Hin]; simpl.
+    - rewrite Hk, Hv, (find_index_nodup dids j idj Hdnd Hj).
+      rewrite (copy_fold_other r _ j idj Hj).
+      + by rewrite list_lookup_insert.
+      + intros k Hk'. apply Hid0. apply elem_of_list_fmap. by exists (k, idj).
+    - apply (IH _ j idj i v); try done.
+      destruct (bit keep id0); [|done]. destruct (srow !! i0); [|done]. destruct (find_index _ _); [by rewrite insert_length|done].
+  Qed.
+End copy.
+
+Lemma copy_cells_spec keep sids srow dids drow j id :
+  NoDup sids -> NoDup dids -> length srow = length sids -> length drow = length dids ->
+  dids !! j = Some id ->
+  copy_cells keep sids srow dids drow !! j =
+    if bit keep id then match find_index (Nat.eqb id) sids with Some i => srow !! i | None => drow !! j end
+    else drow !! j.
+Proof.
+  intros Hs Hd Hls Hld Hj. unfold copy_cells.
+  set (l := imap (fun i id => (i, id)) sids).
+  assert (Hsnd : map snd l = sids).
+  { unfold l. apply list_eq. intros i. rewrite list_lookup_fmap, list_lookup_imap. by destruct (sids !! i). }
+  assert (Hin : forall i x, (i, x) ∈ l <-> sids !! i = Some x).
+  { intros i x. unfold l. rewrite elem_of_lookup_imap. split.
+    - intros (i' & y & [= <- <-] & H). done.
+    - intros H. exists i, x. done. }
+  destruct (bit keep id) eqn:Hk.
+  - destruct (find_index (Nat.eqb id) sids) as [i|] eqn:Hf.
+    + apply find_index_Some_lookup in Hf as (x & Hx & Hex). apply Nat.eqb_eq in Hex. subst x.
+      assert (i < length srow) by (rewrite Hls; by apply lookup_lt_Some in Hx).
+      destruct (srow !! i) as [v|] eqn:Hv; [|apply lookup_ge_None in Hv; lia].
+      apply (copy_fold_hit keep srow dids Hd l drow j id i v); try done.
+      * rewrite Hld. by apply lookup_lt_Some in Hj.
+      * by rewrite Hsnd.
+      * by apply Hin.
+    + apply (copy_fold_other keep srow dids l drow j id Hj).
+      intros i Hi. apply Hin in Hi. apply find_index_None_notin in Hf. apply Hf. by eapply elem_of_list_lookup_2.
+  - (* not kept: nothing is written for id; show by the 'other' lemma on a filtered view *)
+    clear Hin Hsnd. generalize l. clear l. intros l. revert drow Hld.
+    induction l as [|[i0 id0] r IH]; intros drow Hld; simpl; [done|].
+    destruct (bit keep id0) eqn:Hk0; [|by apply IH].
+    destruct (srow !! i0); [|by apply IH]. destruct (find_index (Nat.eqb id0) dids) as [j'|] eqn:Hf; [|by apply IH].
+    rewrite IH by (by rewrite insert_length).
+    destruct (decide (j' = j)) as [->|Hne]; [|by rewrite list_lookup_insert_ne].
+    apply find_index_Some_lookup in Hf as (x & Hx & Hex). apply Nat.eqb_eq in Hex. subst x.
+    rewrite Hj in Hx. injection Hx as ->. congruence.
+Qed.
